@@ -47,6 +47,11 @@ pub trait Rule: RuleClone + Debug + Send {
             } else {
                 format!("{rendered}{equal_quantifier}")
             }
+        } else if kind == "escaped" && !escaper.has_unprintable(&expression) {
+            // an escaped expression is read back through the escape decoder, so a
+            // literal backslash must be escaped even if nothing else needs to be
+            let rendered = rendered.replace('\\', "\\\\");
+            format!("{rendered} ({kind}{quantifier})")
         } else {
             format!("{rendered} ({kind}{quantifier})")
         }
